@@ -83,6 +83,15 @@ static void passes(void)
 static void setc(a_rbt_node *x, a_rbt_node *c, int side) { if (side < 0) { x->left = c; } else { x->right = c; } }
 static a_rbt_node *getc(a_rbt_node *x, int side) { return side < 0 ? x->left : x->right; }
 
+#define NDC(name) ND(unsigned, name, u32); ASSUME(name <= 1)
+#define NDG(name) ND(int, name, int); ASSUME(0 <= name && name <= HMAX)
+static void link_opt(wn *parent, wn *child, int side, _Bool exists, unsigned colour)
+{
+    setc(&parent->n, exists ? &child->n : (a_rbt_node *)A_NULL, side);
+    child->n.left = child->n.right = A_NULL;
+    a_rbt_set_parent_color(&child->n, &parent->n, colour);
+}
+#ifdef LEMMA_REMOVE
 /* ---- window of the removal fix-up: G? - P - { N (deficient, side d), S (sibling) }; S - { SN (near nephew, side d),
         SF (far nephew) }; SN - { SNN (side d), SNF }; SF, SNN, SNF, and the children of SNN/SNF/SF are boundaries ---- */
 static wn nG, nP, nS, nSN, nSF, nSNN, nSNF;                       /* window nodes (G only as an anchor) */
@@ -111,14 +120,6 @@ void verif_second_arrival(void *root_, void *node, void *parent)
     __CPROVER_assume(0);
 }
 
-#define NDC(name) ND(unsigned, name, u32); ASSUME(name <= 1)
-#define NDG(name) ND(int, name, int); ASSUME(0 <= name && name <= HMAX)
-static void link_opt(wn *parent, wn *child, int side, _Bool exists, unsigned colour)
-{
-    setc(&parent->n, exists ? &child->n : (a_rbt_node *)A_NULL, side);
-    child->n.left = child->n.right = A_NULL;
-    a_rbt_set_parent_color(&child->n, &parent->n, colour);
-}
 void h_remove_step(void)
 {
     ND(int, d_, int); ND(_Bool, hasG_, bool); ND(int, sideG_, int);
@@ -184,3 +185,104 @@ void h_remove_step(void)
     }
     VERIF_CANARY();
 }
+
+#endif /* LEMMA_REMOVE */
+
+/* ---- window of the insertion fix-up: GG? - G? - { P? (side ps), U? (uncle) }; P - { N (side ns), PC? }; N - { NL?, NR? }.
+        G, P, N are window nodes; U, PC, NL, NR are boundary roots (U may be recoloured black) ---- */
+#ifdef LEMMA_INSERT
+static wn iGG, iG, iP, iN;
+static wn iU, iPC, iNL, iNR;
+static int ps, ns;
+static _Bool hasP, hasGp, hasGG; static int sideGG;
+static int ibh_old, isize0; static unsigned cGG_;
+static a_uptr GGword0; static a_rbt_node *GGother0;
+static wn *itop_anchor(void) { return hasGG ? &iGG : (wn *)0; }
+static a_rbt_node *itop(void) { return hasGG ? getc(&iGG.n, sideGG) : root.node; }
+static int iframe(void) { return !hasGG || (iGG.n.parent_ == GGword0 && getc(&iGG.n, -sideGG) == GGother0 && root.node == &iGG.n); }
+void verif_second_arrival(void *root_, void *node, void *parent)
+{
+    /* colour flip (uncle red): the loop continues at the grandparent: J_ins(G) */
+    (void)root_;
+    passes();
+    __CPROVER_assert(hasP && hasGp && node == (void *)&iG.n, "insert_adjust step (continue): the focus moves to the grandparent");
+    __CPROVER_assert(parent == (void *)(hasGG ? &iGG.n : (a_rbt_node *)A_NULL) && a_rbt_parent(&iG.n) == (hasGG ? &iGG.n : (a_rbt_node *)A_NULL), "insert_adjust step (continue): its parent is the great-grandparent");
+    __CPROVER_assert(a_rbt_color(&iG.n) == 0, "insert_adjust step (continue): the new node is red - the loop invariant");
+    __CPROVER_assert(itop() == &iG.n && iframe(), "insert_adjust step (continue): nothing above the window changed");
+    __CPROVER_assert(ok_of(&iG.n), "insert_adjust step (continue): below the new node the tree is a valid red-black search tree");
+    __CPROVER_assert(bh_of(&iG.n) == ibh_old, "insert_adjust step (continue): black heights are unchanged");
+    __CPROVER_assert(sz_of(&iG.n) == isize0, "insert_adjust step (continue): no element lost or duplicated");
+    __CPROVER_assume(0);
+}
+void h_insert_step(void)
+{
+    ND(int, ps_, int); ND(int, ns_, int); ND(int, sideGG_, int);
+    ND(_Bool, hasP_, bool); ND(_Bool, hasG_, bool); ND(_Bool, hasGG_, bool);
+    ASSUME((ps_ == -1 || ps_ == 1) && (ns_ == -1 || ns_ == 1) && (sideGG_ == -1 || sideGG_ == 1));
+    ps = ps_; ns = ns_; sideGG = sideGG_; hasP = hasP_; hasGp = hasP_ && hasG_; hasGG = hasP_ && hasG_ && hasGG_;
+    NDC(cGG); NDC(cG); NDC(cP); NDC(cU); NDC(cPC); NDC(cNL); NDC(cNR);
+    ND(_Bool, eU, bool); ND(_Bool, ePC, bool); ND(_Bool, eNL, bool); ND(_Bool, eNR, bool);
+    NDG(gU); NDG(gPC); NDG(gNL); NDG(gNR);
+    ND(_Bool, kU, bool); ND(_Bool, kPC, bool); ND(_Bool, kNL, bool); ND(_Bool, kNR, bool);
+    cGG_ = cGG;
+    nw = 0;
+    if (hasGp) { Wn[nw++] = &iG; }
+    if (hasP) { Wn[nw++] = &iP; }
+    Wn[nw++] = &iN;
+    Bn[0] = &iU; Bn[1] = &iPC; Bn[2] = &iNL; Bn[3] = &iNR; nb = 4;
+    Bg[0] = gU; Bg[1] = gPC; Bg[2] = gNL; Bg[3] = gNR;
+    Bcb[0] = kU; Bcb[1] = kPC; Bcb[2] = kNL; Bcb[3] = kNR;
+    iGG.key = 1000; iG.key = 100; iU.key = ps < 0 ? 150 : 50; iP.key = ps < 0 ? 50 : 150;
+    iN.key = iP.key + 20 * ns; iPC.key = iP.key - 20 * ns; iNL.key = iN.key - 5; iNR.key = iN.key + 5;
+    if (!hasP) { iN.key = 100; iNL.key = 95; iNR.key = 105; }
+    /* links */
+    iGG.n.left = iGG.n.right = iG.n.left = iG.n.right = iP.n.left = iP.n.right = iN.n.left = iN.n.right = A_NULL;
+    a_rbt_set_parent_color(&iGG.n, A_NULL, cGG);
+    a_rbt_set_parent_color(&iG.n, hasGG ? &iGG.n : (a_rbt_node *)A_NULL, cG);
+    a_rbt_set_parent_color(&iP.n, hasGp ? &iG.n : (a_rbt_node *)A_NULL, cP);
+    a_rbt_set_parent_color(&iN.n, hasP ? &iP.n : (a_rbt_node *)A_NULL, 0);        /* the node is red: loop invariant */
+    if (hasGG) { setc(&iGG.n, &iG.n, sideGG); root.node = &iGG.n; }
+    else if (hasGp) { root.node = &iG.n; }
+    else if (hasP) { root.node = &iP.n; }
+    else { root.node = &iN.n; }
+    if (hasGp) { setc(&iG.n, &iP.n, ps); link_opt(&iG, &iU, -ps, eU, cU); }
+    if (hasP) { setc(&iP.n, &iN.n, ns); link_opt(&iP, &iPC, -ns, ePC, cPC); }
+    link_opt(&iN, &iNL, -1, eNL, cNL);
+    link_opt(&iN, &iNR, 1, eNR, cNR);
+    GGword0 = iGG.n.parent_; GGother0 = getc(&iGG.n, -sideGG);
+    /* J_ins(N): valid everywhere except a possible red-red between N and its parent, or N being a red root */
+    passes();
+    ASSUME(ok_of(eNL ? &iNL.n : (a_rbt_node *)A_NULL) && ok_of(eNR ? &iNR.n : (a_rbt_node *)A_NULL));
+    ASSUME(blackp(iN.n.left) && blackp(iN.n.right) && bh_of(iN.n.left) == bh_of(iN.n.right)); /* N's own subtree is valid */
+    if (hasP)
+    {
+        ASSUME(ok_of(ePC ? &iPC.n : (a_rbt_node *)A_NULL) && bh_of(iN.n.left) == bh_of(getc(&iP.n, -ns)));
+        ASSUME(cP == 1 || blackp(getc(&iP.n, -ns)));                             /* the only red-red allowed is P - N */
+        ASSUME(hasGp || cP == 1);                                                 /* a root is black */
+    }
+    if (hasGp)
+    {
+        ASSUME(ok_of(eU ? &iU.n : (a_rbt_node *)A_NULL));
+        ASSUME(bh_of(iN.n.left) + (cP ? 1 : 0) == bh_of(getc(&iG.n, -ps)));
+        ASSUME(cG == 1 || (cP == 1 && blackp(getc(&iG.n, -ps))));              /* G red only with black children */
+        ASSUME(hasGG || cG == 1);
+        ASSUME(!hasGG || cGG == 1 || cG == 1);
+    }
+    ibh_old = hasGp ? bh_of(getc(&iG.n, -ps)) + (cG ? 1 : 0) : hasP ? bh_of(iN.n.left) + 1 : bh_of(iN.n.left);
+    isize0 = 1 + (eNL ? 1 : 0) + (eNR ? 1 : 0) + (hasP ? 1 + (ePC ? 1 : 0) : 0) + (hasGp ? 1 + (eU ? 1 : 0) : 0);
+    verif_arrivals = 0;
+    verif_enter_node = (void *)&iN.n;
+    a_rbt_insert_adjust(&root, &iN.n);
+    {
+        a_rbt_node *t = itop();
+        passes();
+        ASSERT(t != A_NULL && widx(t) >= 0, "insert_adjust step (done): the subtree root is a window node");
+        ASSERT(a_rbt_parent(t) == (hasGG ? &iGG.n : (a_rbt_node *)A_NULL) && iframe(), "insert_adjust step (done): parent link of the subtree root, nothing above the window changed");
+        ASSERT(ok_of(t), "insert_adjust step (done): the window is a valid red-black search tree (no red-red, equal black heights, order, parent links)");
+        ASSERT(bh_of(t) == ibh_old || (!hasP && bh_of(t) == ibh_old + 1), "insert_adjust step (done): black height seen from above unchanged (a red root turned black makes the whole tree one higher)");
+        ASSERT(blackp(t) || (hasGG && cGG_ == 1), "insert_adjust step (done): the subtree root is red only below a black parent; a root is black");
+        ASSERT(sz_of(t) == isize0, "insert_adjust step (done): no element lost or duplicated");
+    }
+    VERIF_CANARY();
+}
+#endif
